@@ -203,6 +203,8 @@ class Evaluator:
         self.fold = fold_constants
         self.leaf_info = {}         # leaf name -> {"type": quantity type, ...}
         self.hooks = {}             # fn name -> python model override
+        from . import frontend as _fe
+        self.inc_root = _fe.INC
 
     # ------------------------------------------------------------------ store
     def new_loc(self, v=UNDEF, tag="tmp"):
@@ -306,6 +308,8 @@ class Evaluator:
             return Str([("strsym", prefix)])
         if t.startswith("std::basic_ostream<"):
             return Obj("std::ostream", {"out": Arr([])})
+        if t.startswith("std::hash<"):
+            return Obj(t, {})
         if t in _INT_TYPES or t == "unsigned long":
             return ("isym", prefix)
         raise Inconclusive("cannot build a symbolic value of type " + t)
@@ -388,6 +392,8 @@ class Evaluator:
             return self.defaulted(f, this_lv, args)
         if f.get("extern") or "body" not in f:
             return self.model_extern(f, this_lv, args)
+        if f["name"].startswith("std::hash<") and not f["loc"].startswith(self.inc_root) and not self.__dict__.get("descend_std_hash"):
+            return self.model_extern(f, this_lv, args)   # libstdc++ body is examined separately (C14.R3b)
         if f.get("invalid"):
             raise Inconclusive("ill-formed function " + f["name"])
         if f.get("deleted"):
